@@ -388,15 +388,20 @@ structure Snap where
 
 def snapP : P Snap := do
   let state ← stateP
+  let _ ← tok   -- ";"
   let cursor ← num
   let stack ← listOf num
   let inner ← compP
+  let _ ← tok
   let lay ← layStateP
+  let _ ← tok
   let engine ← num
   let category ← listOf (do let name ← textTok; let idx ← optNumP; return (name, idx))
   let table ← listOf textTok
   let symCursor ← optNumP
+  let _ ← tok
   let options ← optionsP
+  let _ ← tok
   let last ← tok
   let dirty ← num
   let nth ← num
@@ -430,12 +435,12 @@ def stateS : St → String
 
 def snapS (e : Editor MemDict Lay) : String :=
   let sh := e.shared
-  unwords ([stateS e.state, toString sh.com.cursor, toString sh.com.stack.length] ++ sh.com.stack.map toString
-    ++ [compS sh.com.inner, layStateS sh.syl.st, toString (engineNo sh.engine),
+  unwords ([stateS e.state, ";", toString sh.com.cursor, toString sh.com.stack.length] ++ sh.com.stack.map toString
+    ++ [compS sh.com.inner, ";", layStateS sh.syl.st, ";", toString (engineNo sh.engine),
         toString sh.symSel.category.length]
     ++ sh.symSel.category.map (fun c => hxCps c.1 ++ " " ++ optNumS c.2)
     ++ [toString sh.symSel.table.length] ++ sh.symSel.table.map hxCps
-    ++ [optNumS sh.symSel.cursor, optionsS sh.options, kbS sh.last, toString sh.dirty, toString sh.nth,
+    ++ [optNumS sh.symSel.cursor, ";", optionsS sh.options, ";", kbS sh.last, toString sh.dirty, toString sh.nth,
         hxCps sh.commitBuf, hxCps sh.noticeBuf, toString sh.time])
 
 /-- canonical re-serialisation of a recorded snapshot (sorts selections), to compare like with like -/
